@@ -10,5 +10,8 @@ what=base; [ "$id" = "C08" ] && what=all
 if ! scripts/build.sh $what >.build/build-$tag-$id.log 2>&1; then
   echo "harness build failed (see .build/build-$tag-$id.log)"; tail -20 .build/build-$tag-$id.log; exit 2
 fi
+if [ "$id" = "C25" ]; then
+  scripts/build_sched.sh all >>.build/build-$tag-$id.log 2>&1 || { echo "harness build failed (see .build/build-$tag-$id.log)"; tail -20 .build/build-$tag-$id.log; exit 2; }
+fi
 . scripts/env.sh
 exec .build/bin/verif$suffix check "$id" "$tier"
